@@ -110,7 +110,6 @@ func DebugDNF(p *core.Program, rel, name, callee string) {
 	}
 }
 
-
 // DebugAckJoin prints the guards of every entry into the acknowledgement section of handleRequest.
 func DebugAckJoin(p *core.Program) {
 	hr := p.Method("handlers/dhcp4_spoofer", "Handler", "handleRequest")
